@@ -1,0 +1,144 @@
+//go:build verif
+
+// Verification hooks (build tag `verif` only; with the tag off this file is excluded and
+// nothing changes).  They give the /verif correspondence harness a canonical, read-only dump of
+// the in-memory tables of ChunkInfo that have no exported accessor: the pyramid reference
+// counts, the per-root chunk/hash totals, and the key sets of the presence / discover / source
+// tables (the bit vectors themselves are copied).
+package chunkinfo
+
+import (
+	"context"
+	"sort"
+
+	"github.com/gauss-project/aurorafs/pkg/boson"
+)
+
+// VerifBits is a copy of one bit vector.
+type VerifBits struct {
+	Overlay string
+	Len     int
+	B       []byte
+}
+
+// VerifRootInfo is everything the in-memory tables hold for one root.
+type VerifRootInfo struct {
+	Root          string
+	HasHashData   bool
+	ChunkMax      uint
+	HashMax       uint
+	Presence      []VerifBits // chunkInfoTabNeighbor.presence[root], sorted by overlay
+	HasPresence   bool
+	Overlays      []string // chunkInfoTabNeighbor.overlays[root] in insertion order
+	Discover      []VerifBits
+	HasDiscover   bool
+	HasSource     bool
+	PyramidSource string
+	ChunkSource   []VerifBits
+	HasQueue      bool
+	Pending       bool
+}
+
+// VerifState is the dump of all in-memory tables.
+type VerifState struct {
+	// Chunk is chunkPyramid.chunk (cid -> reference count), sorted by cid.
+	Chunk []VerifRef
+	Roots []VerifRootInfo // sorted by root
+}
+
+// VerifRef is one reference-count entry.
+type VerifRef struct {
+	Cid   string
+	Count uint
+}
+
+func verifCopy(b []byte) []byte { return append([]byte(nil), b...) }
+
+// VerifDump copies the tables under their read locks.
+func (ci *ChunkInfo) VerifDump() VerifState {
+	var st VerifState
+	roots := map[string]*VerifRootInfo{}
+	get := func(r string) *VerifRootInfo {
+		if v, ok := roots[r]; ok {
+			return v
+		}
+		v := &VerifRootInfo{Root: r}
+		roots[r] = v
+		return v
+	}
+
+	ci.cp.RLock()
+	for k, v := range ci.cp.chunk {
+		st.Chunk = append(st.Chunk, VerifRef{Cid: k, Count: v})
+	}
+	for r, h := range ci.cp.hashData {
+		x := get(r)
+		x.HasHashData, x.ChunkMax, x.HashMax = true, h.chunkMax, h.hashMax
+	}
+	ci.cp.RUnlock()
+	sort.Slice(st.Chunk, func(i, j int) bool { return st.Chunk[i].Cid < st.Chunk[j].Cid })
+
+	ci.ct.RLock()
+	for r, m := range ci.ct.presence {
+		x := get(r)
+		x.HasPresence = true
+		for o, bv := range m {
+			x.Presence = append(x.Presence, VerifBits{Overlay: o, Len: bv.Len(), B: verifCopy(bv.Bytes())})
+		}
+		sort.Slice(x.Presence, func(i, j int) bool { return x.Presence[i].Overlay < x.Presence[j].Overlay })
+	}
+	for r, l := range ci.ct.overlays {
+		x := get(r)
+		for _, o := range l {
+			x.Overlays = append(x.Overlays, o.String())
+		}
+	}
+	ci.ct.RUnlock()
+
+	ci.cd.RLock()
+	for r, m := range ci.cd.presence {
+		x := get(r)
+		x.HasDiscover = true
+		for o, bv := range m {
+			x.Discover = append(x.Discover, VerifBits{Overlay: o, Len: bv.bit.Len(), B: verifCopy(bv.bit.Bytes())})
+		}
+		sort.Slice(x.Discover, func(i, j int) bool { return x.Discover[i].Overlay < x.Discover[j].Overlay })
+	}
+	ci.cd.RUnlock()
+
+	ci.cs.RLock()
+	for r, s := range ci.cs.presence {
+		x := get(r)
+		x.HasSource = true
+		x.PyramidSource = s.PyramidSource
+		for o, bv := range s.ChunkSource {
+			x.ChunkSource = append(x.ChunkSource, VerifBits{Overlay: o, Len: bv.Len(), B: verifCopy(bv.Bytes())})
+		}
+		sort.Slice(x.ChunkSource, func(i, j int) bool { return x.ChunkSource[i].Overlay < x.ChunkSource[j].Overlay })
+	}
+	ci.cs.RUnlock()
+
+	ci.queues.Range(func(k, _ interface{}) bool {
+		get(k.(string)).HasQueue = true
+		return true
+	})
+	ci.cpd.RLock()
+	for r := range ci.cpd.finder {
+		get(r).Pending = true
+	}
+	ci.cpd.RUnlock()
+
+	for _, v := range roots {
+		st.Roots = append(st.Roots, *v)
+	}
+	sort.Slice(st.Roots, func(i, j int) bool { return st.Roots[i].Root < st.Roots[j].Root })
+	return st
+}
+
+// VerifFindPyramid runs the pyramid exchange of Init/FindChunkInfo for one peer (the unexported
+// doFindChunkPyramid: request the pyramid of rootCid from overlay unless it is already known,
+// verify it, store its chunks under the root context and register it) without Init's
+// 1-second retry ticker and without starting the discovery queue.
+func (ci *ChunkInfo) VerifFindPyramid(ctx context.Context, rootCid, overlay boson.Address) error {
+	return ci.doFindChunkPyramid(ctx, nil, rootCid, overlay)
+}
